@@ -131,6 +131,8 @@ def install():
         mod.int = symint
         if hasattr(mod, "check_numerical_range") and name != "kafe2.fit.util":
             mod.check_numerical_range = _nocheck
+        if hasattr(mod, "print_dict_as_table") and name != "kafe2.tools":
+            mod.print_dict_as_table = _nocheck  # table rendering of report(): text output is not the subject (C17 models formatting)
     M = sys.modules
     M["kafe2.fit.util"].check_numerical_range = _nocheck
     cost = M["kafe2.fit._base.cost"]
@@ -143,6 +145,7 @@ def install():
             "np -> vx.symnp in every kafe2 module (pure-Python NumPy work-alike over z3 Reals)",
             "float/int -> type-like converters that pass symbolic values through",
             "check_numerical_range -> no-op (emits warnings only)",
+            "print_dict_as_table -> no-op (text rendering of report tables)",
             "scipy.linalg.solve_triangular -> forward/backward substitution",
             "scipy.stats.norm.logpdf / poisson.logpmf -> closed forms over uninterpreted log, lgamma",
             "scipy.stats.chi2.cdf -> uninterpreted function chi2cdf(x, k)",
